@@ -102,8 +102,8 @@ Proof.
   - destruct (web_ghost _ _ _ E) as (Ga & _ & _ & r & ->). rewrite Ga in IH. exact IH.
 Qed.
 
-Theorem C01_monitor_holds tr s : run init tr = Some s -> C01_ok tr = true.
-Proof. intros H. unfold C01_ok. change false with (acked init). eapply c01_from; [apply inv_init|exact H]. Qed.
+Theorem C01_quiet_holds tr s : run init tr = Some s -> C01_quiet tr = true.
+Proof. intros H. unfold C01_quiet. change false with (acked init). eapply c01_from; [apply inv_init|exact H]. Qed.
 
 (* ---------- C04 and C02: the monitors' counters are functions of the control thread's position ---------- *)
 Notation Inv2 := (Inv2 n).
@@ -273,5 +273,8 @@ Qed.
 
 Theorem C04_monitor_holds tr s : run init tr = Some s -> C04_ok tr = true.
 Proof. intros H. apply (c04_from tr init s); [apply inv_init|apply inv2_init|exact H]. Qed.
+
+Theorem C01_monitor_holds tr s : run init tr = Some s -> C01_ok tr = true.
+Proof. intros H. unfold C01_ok. rewrite (C01_quiet_holds _ _ H), (C04_monitor_holds _ _ H). reflexivity. Qed.
 
 End Mon.
